@@ -215,10 +215,13 @@ func (f *fctx) ordinaryCase(cur *channel.State) tcase {
 			}},
 			cand{"o-locked-other-imap", func() (client.ChannelUpdateMsg, bool) {
 				s := ok()
-				if len(s.Locked[k].IndexMap) == 0 {
+				switch im := s.Locked[k].IndexMap; len(im) {
+				case 0:
 					s.Locked[k].IndexMap = []channel.Index{0, 1}
-				} else {
-					s.Locked[k].IndexMap = []channel.Index{s.Locked[k].IndexMap[1], s.Locked[k].IndexMap[0]}
+				case 1:
+					s.Locked[k].IndexMap = []channel.Index{im[0] ^ 1}
+				default:
+					s.Locked[k].IndexMap = append([]channel.Index{im[1], im[0]}, im[2:]...)
 				}
 				return f.signedUpd(s, peer), true
 			}},
